@@ -185,33 +185,54 @@ def main(argv):
     results.sort(key=lambda r: r["name"])
     wall = time.time() - t0
 
-    violations, known_hits, inconclusive = [], [], []
+    violations, known_hits, inconclusive, foreign = [], [], [], []
     os.makedirs(os.path.join(OUT, prop), exist_ok=True)
+
+    def owner(msg):
+        """Property an assertion text belongs to: 'cNN: ...' -> CNN; anything else
+        (Rust panics, overflow, index, debug_assert inside foca) -> C06."""
+        m = re.match(r"^c(\d\d): ", msg)
+        if m:
+            return "C" + m.group(1)
+        if msg.startswith("harness:"):
+            return "HARNESS"
+        return "C06"
+
     for r in results:
         if r["status"] == "INCONCLUSIVE":
             inconclusive.append("%s: %s" % (r["name"], r["detail"]))
         if r["status"] != "FAIL":
             continue
+        solver_msgs = [m for m in r["detail"].split("; ") if m]
         if r["engine"] != "incrate":
-            # external engines run the real code without stubs of foca's logic:
-            # the solver's counterexample is reported with its value tape.
-            reproduced = [{"desc": x["desc"], "tape": x["tape"], "message": x["desc"]} for x in r["replays"] if x["class"] != "cover"]
-            if not reproduced:
-                reproduced = [{"desc": d, "tape": "", "message": d} for d in r["detail"].split("; ")]
+            # external engines run foca's code without stubs of its logic; the
+            # solver's counterexample is reported with its value tape.
+            tapes = {x["desc"]: x["tape"] for x in r["replays"] if x["class"] != "cover"}
+            reproduced = [{"desc": d, "tape": tapes.get(d, ""), "message": d} for d in solver_msgs]
         else:
             reproduced = []
             for x in r["replays"]:
                 msgs = [n.get("message", "") for n in x["native"] if n.get("status") == "violated"]
                 if msgs:
                     reproduced.append({"desc": x["desc"], "tape": x["tape"], "message": msgs[0], "native": x["native"]})
+        owns = P.get("owns", [prop])
+        mine_solver = [m for m in solver_msgs if prop == "DEV" or owner(m) in owns]
         if not reproduced:
             json.dump(r["replays"], open(os.path.join(OUT, prop, r["name"] + ".attempts.json"), "w"), indent=1)
-            inconclusive.append("%s: solver counterexample did not reproduce natively (%s)" % (r["name"], r["detail"]))
+            if mine_solver or any(owner(m) == "HARNESS" for m in solver_msgs):
+                inconclusive.append("%s: solver counterexample did not reproduce natively (%s)" % (r["name"], r["detail"]))
+            else:
+                foreign.append("%s: %s" % (r["name"], r["detail"]))
             continue
         by_msg = {}
         for x in reproduced:
             by_msg.setdefault(x["message"], x)
+        hit = False
         for msg, x in sorted(by_msg.items()):
+            if prop != "DEV" and owner(msg) not in owns:
+                foreign.append("%s: %s" % (r["name"], msg))
+                continue
+            hit = True
             k = match_known(prop, r["name"], msg)
             path = os.path.join(OUT, prop, "%s.%d.replay.json" % (r["name"], zlib.crc32(msg.encode()) % 100000))
             json.dump({"property": prop, "harness": r["name"], "engine": r["engine"], "assertion": msg,
@@ -221,6 +242,10 @@ def main(argv):
                 known_hits.append((k, msg))
             else:
                 violations.append((path, r["name"], msg))
+        if not hit and mine_solver:
+            # the solver refuted an obligation of this property but the native run
+            # stopped at an earlier obligation of another property
+            inconclusive.append("%s: obligation refuted by the solver, native replay stops earlier at another property's obligation (%s)" % (r["name"], "; ".join(mine_solver)))
 
     for k, msg in known_hits:
         print("KNOWN-FINDING: property=%s %s" % (prop, k.get("what", msg)))
@@ -229,6 +254,8 @@ def main(argv):
         print("  harness=%s assertion=%s" % (name, msg))
     for x in inconclusive:
         print("INCONCLUSIVE property=%s %s" % (prop, x))
+    for x in foreign:
+        print("NOTE property=%s obligation of another property failed in a shared harness (reported by that property's check): %s" % (prop, x))
 
     samples = [summarize(r) for r in results]
     evaluations = sum(s["queries"] for s in samples)
@@ -253,6 +280,7 @@ def main(argv):
             "replayed_counterexamples": sum(len(r["replays"]) for r in results),
             "known_findings_hit": [k.get("what", "") for k, _ in known_hits],
             "inconclusive": inconclusive,
+            "other_property_failures_seen": foreign,
         },
         "assumptions": P.get("assumptions", []) + table.COMMON_ASSUMPTIONS,
         "wall_s": round(wall, 2),
